@@ -9,7 +9,16 @@ import (
 // splitmix64: the single PRNG state all choices derive from.
 type rng struct{ s uint64 }
 
-func newRng(seed uint64) *rng { return &rng{s: seed*0x9E3779B97F4A7C15 + 0x1234567} }
+// newRng scrambles the seed first: with s = seed*gamma the streams of consecutive seeds would be the same
+// sequence shifted by one step.
+func newRng(seed uint64) *rng {
+	z := seed + 0x632BE59BD9B4E019
+	z = (z ^ (z >> 30)) * 0xBF58476D1CE4E5B9
+	z = (z ^ (z >> 27)) * 0x94D049BB133111EB
+	z = z ^ (z >> 31)
+	z = (z ^ (z >> 33)) * 0xFF51AFD7ED558CCD
+	return &rng{s: z ^ (z >> 29)}
+}
 
 func seedFromEnv() uint64 {
 	if v := os.Getenv("VERIF_SEED"); v != "" {
